@@ -120,6 +120,17 @@ CLAIMED = {
              "repeated query same answer.",
         design="§4 C16", technique="source-to-Coq translation of write sets + Coq table theorems (vm_compute) + exhaustive pairwise exploration of the implementation",
         note="that a move-and-restore query restores exactly, and aliasing of handed-out arrays, are outside the write-set abstraction and decided by the exploration."),
+    "C15": dict(
+        text="Exact oracle in Coq: simple_bf (definition of a simple cycle), proper_cross_bf, touch_bf; theorems: a proper crossing yields an explicit common "
+             "point of the two open edges (sound 'clearly invalid' class), Paramcoq transfer of the oracles, constructors establish radii only through "
+             "guarded setters (read off the source each run). Correspondence: Polygon accepts exactly the simple cycles and raises ValueError on properly "
+             "crossing / duplicate / <3 / off-plane input (lattice, comb/spiral, tilted planes, the Bentley-Ottmann vertical-edge case); every permutation of "
+             "small convex inputs is accepted by ConvexPolygon/ConvexSpheropolygon and comes out counter-clockwise about the normal; sets with an interior "
+             "point (exactly certified inside by the half-space model) are rejected by all four convex classes; non-positive radii, negative rounding radii "
+             "rejected; caller arrays bit-for-bit unchanged, not shared, and mutating them does not move the shape.",
+        design="§4 C15", technique="Coq decision procedure as exact oracle + Coq proof (crossing soundness, transfer, guard table) + model/implementation correspondence",
+        note="Bentley-Ottmann and qhull are validated oracles; cycles ON the decision boundary (touching only, straight corners) are generated but not judged; "
+             "recorded observation: such touching cycles can raise AssertionError from the vendored sweep; known finding polygon-collinear-first-corner."),
 }
 
 REASON_TODO = "check not built yet (work in progress this round)"
